@@ -84,6 +84,23 @@ impl Frag {
     }
 }
 
+/// RltdPties and RmtInf of a TxDtls: the texts a rewrite rule can look at besides the additional
+/// information (C17).  None of a field = the element is absent.
+#[derive(Clone, Debug, PartialEq, Serialize, Deserialize, Hash, Default)]
+pub struct Parties {
+    pub creditor: Option<String>,
+    pub creditor_account: Option<String>,
+    pub ultimate_creditor: Option<String>,
+    pub debtor: Option<String>,
+    pub debtor_account: Option<String>,
+    pub ultimate_debtor: Option<String>,
+    pub remittance: Option<String>,
+    /// party names inside a <Pty> element (camt.053.001.08) instead of directly under the party
+    pub nested: bool,
+    /// account ids as <IBAN> instead of <Othr><Id>
+    pub iban: bool,
+}
+
 #[derive(Clone, Debug, PartialEq, Serialize, Deserialize, Hash)]
 pub struct Detail {
     pub reference: Option<String>,
@@ -93,6 +110,21 @@ pub struct Detail {
     pub charges: Option<Vec<ChargeRec>>,
     pub info: Option<String>,
     pub frag: Frag,
+    /// None: the fixed `<RltdPties><Dbtr><Nm>NOTPROVIDED` of the C18 statements
+    #[serde(default)]
+    pub parties: Option<Parties>,
+}
+
+/// the Btch header of NtryDtls (optional in camt.053; the importer must not depend on it)
+#[derive(Clone, Debug, PartialEq, Serialize, Deserialize, Hash, Default)]
+pub enum BatchHdr {
+    /// NbOfTxs = the number of TxDtls (at least 1), with TtlAmt and CdtDbtInd
+    #[default]
+    Consistent,
+    /// no Btch element at all
+    Absent,
+    /// NbOfTxs says something else than the number of TxDtls
+    Count(usize),
 }
 
 /// (year, month, day, as DtTm with this local time and offset)
@@ -116,6 +148,8 @@ pub struct Entry {
     pub details: Vec<Detail>,
     pub info: String,
     pub frag: Frag,
+    #[serde(default)]
+    pub batch: BatchHdr,
 }
 
 #[derive(Clone, Debug, PartialEq, Serialize, Deserialize, Hash)]
@@ -204,6 +238,42 @@ fn charges_xml(ind: &str, c: &Option<Vec<ChargeRec>>) -> String {
     s
 }
 
+fn parties_xml(p: &Parties) -> String {
+    let mut s = String::new();
+    let party = |tag: &str, name: &Option<String>| -> String {
+        match name {
+            None => String::new(),
+            Some(n) if p.nested => format!("              <{}>\n                <Pty>\n                  <Nm>{}</Nm>\n                </Pty>\n              </{}>\n", tag, xml_escape(n), tag),
+            Some(n) => format!("              <{}>\n                <Nm>{}</Nm>\n              </{}>\n", tag, xml_escape(n), tag),
+        }
+    };
+    let acct = |tag: &str, id: &Option<String>| -> String {
+        match id {
+            None => String::new(),
+            Some(i) if p.iban => format!("              <{}>\n                <Id>\n                  <IBAN>{}</IBAN>\n                </Id>\n              </{}>\n", tag, xml_escape(i), tag),
+            Some(i) => format!("              <{}>\n                <Id>\n                  <Othr>\n                    <Id>{}</Id>\n                  </Othr>\n                </Id>\n              </{}>\n", tag, xml_escape(i), tag),
+        }
+    };
+    let inner = format!(
+        "{}{}{}{}{}{}",
+        party("Dbtr", &p.debtor),
+        acct("DbtrAcct", &p.debtor_account),
+        party("UltmtDbtr", &p.ultimate_debtor),
+        party("Cdtr", &p.creditor),
+        acct("CdtrAcct", &p.creditor_account),
+        party("UltmtCdtr", &p.ultimate_creditor)
+    );
+    if !inner.is_empty() {
+        s.push_str("            <RltdPties>\n");
+        s.push_str(&inner);
+        s.push_str("            </RltdPties>\n");
+    }
+    if let Some(u) = &p.remittance {
+        writeln!(s, "            <RmtInf>\n              <Ustrd>{}</Ustrd>\n            </RmtInf>", xml_escape(u)).unwrap();
+    }
+    s
+}
+
 pub fn xml(stmts: &[Statement]) -> String {
     let mut s = String::new();
     s.push_str("<?xml version=\"1.0\" encoding=\"UTF-8\"?>\n");
@@ -231,7 +301,14 @@ pub fn xml(stmts: &[Statement]) -> String {
             s.push_str(&charges_xml("        ", &e.charges));
             if e.dtls_element || !e.details.is_empty() {
                 s.push_str("        <NtryDtls>\n");
-                writeln!(s, "          <Btch>\n            <NbOfTxs>{}</NbOfTxs>\n            {}\n            <CdtDbtInd>{}</CdtDbtInd>\n          </Btch>", e.details.len().max(1), amt_xml("TtlAmt", &e.amt), cd(e.credit)).unwrap();
+                let nb = match &e.batch {
+                    BatchHdr::Consistent => Some(e.details.len().max(1)),
+                    BatchHdr::Absent => None,
+                    BatchHdr::Count(n) => Some(*n),
+                };
+                if let Some(nb) = nb {
+                    writeln!(s, "          <Btch>\n            <NbOfTxs>{}</NbOfTxs>\n            {}\n            <CdtDbtInd>{}</CdtDbtInd>\n          </Btch>", nb, amt_xml("TtlAmt", &e.amt), cd(e.credit)).unwrap();
+                }
                 for d in &e.details {
                     s.push_str("          <TxDtls>\n            <Refs>\n");
                     if let Some(r) = &d.reference {
@@ -250,7 +327,10 @@ pub fn xml(stmts: &[Statement]) -> String {
                         s.push_str("              </TxAmt>\n            </AmtDtls>\n");
                     }
                     s.push_str(&charges_xml("            ", &d.charges));
-                    s.push_str("            <RltdPties>\n              <Dbtr>\n                <Nm>NOTPROVIDED</Nm>\n              </Dbtr>\n            </RltdPties>\n");
+                    match &d.parties {
+                        None => s.push_str("            <RltdPties>\n              <Dbtr>\n                <Nm>NOTPROVIDED</Nm>\n              </Dbtr>\n            </RltdPties>\n"),
+                        Some(p) => s.push_str(&parties_xml(p)),
+                    }
                     if let Some(i) = &d.info {
                         writeln!(s, "            <AddtlTxInf>{}</AddtlTxInf>", xml_escape(i)).unwrap();
                     }
@@ -526,7 +606,7 @@ fn gen_statement(r: &mut Rng, ccy: &str, scale: u32, opening: i128, b: &Bias, co
                 consistent = false; // an included charge on an entry without details cannot be explained
             }
             total += sgn * amt.v.units();
-            entries.push(Entry { amt, credit, booking, value, charges, dtls_element: r.chance(1, 2), details: vec![], info: format!("N{}", k), frag: gen_frag(r) });
+            entries.push(Entry { amt, credit, booking, value, charges, dtls_element: r.chance(1, 2), details: vec![], info: format!("N{}", k), frag: gen_frag(r), batch: BatchHdr::Consistent });
         } else {
             let nd = if kind < 6 { 1 } else { r.range(2, 4) as usize };
             let (echarges, e_inc, e_ni) = if has_operator && r.chance(1, 6) { gen_charges(r, ccy, scale, nd == 1) } else { (None, 0, false) };
@@ -567,6 +647,7 @@ fn gen_statement(r: &mut Rng, ccy: &str, scale: u32, opening: i128, b: &Bias, co
                     charges: dcharges,
                     info: if r.chance(9, 10) { Some(format!("T{}x{}", k, j + 1)) } else { None },
                     frag: gen_frag(r),
+                    parties: None,
                 });
             }
             // the entry amount is the signed sum of its details
@@ -578,7 +659,15 @@ fn gen_statement(r: &mut Rng, ccy: &str, scale: u32, opening: i128, b: &Bias, co
             }
             let es: i128 = if ecredit { 1 } else { -1 };
             total += es * eamt.v.units();
-            entries.push(Entry { amt: eamt, credit: ecredit, booking, value, charges: echarges, dtls_element: true, details, info: format!("B{}", k), frag: Frag::default() });
+            // the Btch header is optional, and when present its NbOfTxs is only an announcement:
+            // absent, too small, too large or zero, every TxDtls is a record of the statement
+            let batch = match r.below(8) {
+                0 | 1 => BatchHdr::Absent,
+                2 => BatchHdr::Count(r.below(nd as u64) as usize),
+                3 => BatchHdr::Count(nd + 1 + r.below(3) as usize),
+                _ => BatchHdr::Consistent,
+            };
+            entries.push(Entry { amt: eamt, credit: ecredit, booking, value, charges: echarges, dtls_element: true, details, info: format!("B{}", k), frag: Frag::default(), batch });
         }
     }
     let mut closing = total;
